@@ -47,7 +47,6 @@ CLAIMED.update({
     "C13": {"text": "Kernel only: the captive-portal challenge alphabet is exactly [A-Za-z0-9._-] for every Unicode scalar value.",
             "note": "PARTIAL: the handler (length bounds 1..=63, echo text, 204 status) runs on http::HeaderMap/HeaderValue/response::Builder, which did not finish under CBMC; mutations there are not detected."},
 })
-NOT_APPLICABLE["C12"] = "ClientRequest::auth_token walks http::HeaderMap::get_all and url::form_urlencoded::parse: HeaderMap insertion/hashing did not finish under CBMC within 200 s even for one empty header value (same wall as C13's handler), and percent-decoding allocates by symbolic length"
 
 NA_WALL12 = "needs live tokio tasks/timers/channels (thread-locals with destructors make kani-compiler 0.68 ICE; Kani does not model concurrency): no decisive kernel can be symbolically executed"
 PENDING = "harness not built yet in this revision (planned, DESIGN.md section 4); not claimed until its check exists and passes"
@@ -68,6 +67,7 @@ NOT_APPLICABLE = {
     "C41": "Router shutdown = JoinSet/JoinHandle/CancellationToken across tasks; " + NA_WALL12,
     "C43": "BTreeMap<RelayUrl, Arc<RelayConfig>> operations exhaust CBMC even on empty maps (58 GB) and keys need Url values",
 }
+NOT_APPLICABLE["C12"] = "ClientRequest::auth_token walks http::HeaderMap::get_all and url::form_urlencoded::parse: HeaderMap insertion/hashing did not finish under CBMC within 200 s even for one empty header value (same wall as C13's handler), and percent-decoding allocates by symbolic length"
 NOT_APPLICABLE["C15"] = "the only decisive synchronous kernel (pop_family) works on a VecDeque: VecDeque::remove at a symbolic index exhausts CBMC (26 GB at 2 elements) and even fully concrete 2-3 element queues did not finish in 15 min; the dialing loop itself is tokio timers/TcpStream/select!"
 NOT_APPLICABLE["C20"] = "Builder::bind_addr_with_opts takes the Builder by value: its drop glue statically reaches thread-locals with destructors (DNS resolver / tokio), which makes kani-compiler 0.68 panic (intrinsics.rs:243) for any harness that reaches the function, even with an uninitialised Builder; the order dependence found by reading was repaired (see DESIGN section 5) but is not decided by a check"
 for _p in ["C01","C13","C17","C22","C23","C24","C29","C30","C31","C42"]:
